@@ -1,5 +1,6 @@
-(** C38 — the two witness schedules (used by the refutations in ProofsMain and,
-    for the second, by the correspondence check of the lost-lock hammer). *)
+(** C38 — the two schedules that refuted the property before chain33 66be1e2
+    (ProcWalletSetPasswd no longer touches the lock flag), re-timed for the
+    repaired request program.  ProofsMain shows what they produce now. *)
 From Coq Require Import List ZArith NArith Bool.
 From C33 Require Import Lib.Harness C38.Model.
 Import ListNotations.
@@ -11,25 +12,25 @@ Definition pwC : pw := [97; 98; 99; 100; 49; 50; 51; 54]%N.
 
 Definition steps (i n : nat) : list sched_item := repeat (SStep i) n.
 
-(** witness 1: seed saved, wallet locked.  A password change with a WRONG old
-    password is between its CAS and its restore when IsWalletLocked is asked. *)
+(** schedule 1 (former finding 1): seed saved, wallet locked.  A password
+    change with a WRONG old password holds the mutex and is about to verify
+    the old password when IsWalletLocked is asked. *)
 Definition sched_window : list sched_item :=
   [SSpawn (QSaveSeed pwA)] ++ steps 0 3
-  ++ [SSpawn (QSetPasswd pwB pwC)] ++ steps 1 4
+  ++ [SSpawn (QSetPasswd pwB pwC)] ++ steps 1 2
   ++ [SSpawn QIsLocked] ++ steps 2 1
-  ++ steps 1 3.
+  ++ steps 1 2.
 
-(** witness 2: wallet legitimately unlocked.  SetPasswd (wrong old password)
-    has loaded the flag (0) when ProcWalletLock runs to completion; SetPasswd's
-    CAS(1->0) then undoes the lock, and its restore CAS(0->0) changes nothing:
-    the wallet stays unlocked after a successful lock, and a later request
-    passes the flag test under the mutex.  [tail] = the later request. *)
-Definition sched_lost_lock_with (later : req) (n : nat) : list sched_item :=
+(** schedule 2 (former finding 2): wallet legitimately unlocked.  SetPasswd
+    (wrong old password) has made its flag test (unlocked) when ProcWalletLock
+    runs to completion; SetPasswd then finishes.  [later] = a request made
+    afterwards. *)
+Definition sched_lock_race_with (later : req) (n : nat) : list sched_item :=
   [SSpawn (QSaveSeed pwA)] ++ steps 0 3
   ++ [SSpawn (QUnlock pwA 0 false)] ++ steps 1 5
-  ++ [SSpawn (QSetPasswd pwB pwC)] ++ steps 2 4
+  ++ [SSpawn (QSetPasswd pwB pwC)] ++ steps 2 3
   ++ [SSpawn QLock] ++ steps 3 2
-  ++ steps 2 4
+  ++ steps 2 2
   ++ [SSpawn later] ++ steps 4 n.
 
-Definition sched_lost_lock : list sched_item := sched_lost_lock_with (QSecret (KSeed pwA)) 5.
+Definition sched_lock_race : list sched_item := sched_lock_race_with (QSecret (KSeed pwA)) 5.
